@@ -500,7 +500,7 @@ ASSUME EnvOK == EnvOKFor(Universe)
 (***************************************************************************)
 (* Universes.  Exchanges 1..4 = Mock, BinanceSpot, Kraken, Okx (declaration *)
 (* order of ExchangeId); assets 1..5 = btc eth sol usdc usdt with exchange   *)
-(* names 1..5 = BTC ETH SOL USDC USDT, 6 = XBT (Kraken's name for btc, so    *)
+(* names 1..5 = BTC ETH SOL USDC USDt, 6 = XBT (Kraken's name for btc, so    *)
 (* that exchange-name order differs from internal-name order); instrument   *)
 (* internal names ins01.., exchange names SYM01.. (shared across exchanges;   *)
 (* on Kraken one internal name and one exchange name are borne by two        *)
